@@ -15,14 +15,17 @@
 /* ghosts.  g_kc: an arbitrary column, g_kr: an arbitrary row (frame clauses are stated at them, hence hold
  * for all); v_*: the values found there before the call. */
 int g_kc, g_kr, g_kc2; double v_x, v_r, v_y, v_s; int v_cs, v_rs, v_cs2;
-int g_n, g_n2, g_may_throw, g_out, g_out2;
+int g_k2, v_rs2, g_a, g_b, g_exp; double v_s2, v_y2, v_x2, v_r2; int* gp_i3;
+int g_n, g_n2, g_may_throw, g_out, g_out2, g_cap, g_nC, g_nR, g_in, g_in2;
 double* gp_x; double* gp_y; double* gp_s; double* gp_r; int* gp_cst; int* gp_rst;
 int* gp_i1; int* gp_i2; double* gp_d1;
 static void havoc_ghosts(void)
 {
    g_kc = nondet_int(); g_kr = nondet_int(); g_kc2 = nondet_int(); v_x = nondet_double(); v_r = nondet_double();
    v_y = nondet_double(); v_s = nondet_double(); v_cs = nondet_int(); v_rs = nondet_int(); v_cs2 = nondet_int();
-   g_n = nondet_int(); g_n2 = nondet_int(); g_may_throw = nondet_int(); g_out = nondet_int(); g_out2 = nondet_int();
+   g_k2 = nondet_int(); v_rs2 = nondet_int(); g_a = nondet_int(); g_b = nondet_int(); g_exp = nondet_int();
+   v_s2 = nondet_double(); v_y2 = nondet_double(); v_x2 = nondet_double(); v_r2 = nondet_double();
+   g_n = nondet_int(); g_n2 = nondet_int(); g_in = nondet_int(); g_in2 = nondet_int(); g_cap = nondet_int(); g_nC = nondet_int(); g_nR = nondet_int(); g_may_throw = nondet_int(); g_out = nondet_int(); g_out2 = nondet_int();
 }
 
 /* equality of doubles that also accepts NaN == NaN (a copied NaN stays a NaN); +0 == -0 */
@@ -53,7 +56,7 @@ static void havoc_ghosts(void)
 #define GHOST_ROW (0 <= g_kr && g_kr < nR && SAME(v_y, y[g_kr]) && SAME(v_s, s[g_kr]) && v_rs == rst[g_kr])
 #define COL_UNCHANGED (SAME(x[g_kc], v_x) && SAME(r[g_kc], v_r) && cst[g_kc] == v_cs)
 #define ROW_UNCHANGED (SAME(y[g_kr], v_y) && SAME(s[g_kr], v_s) && rst[g_kr] == v_rs)
-#define GP_ALL gp_x, gp_y, gp_s, gp_r, gp_cst, gp_rst
+#define GP_ALL gp_x, gp_y, gp_s, gp_r, gp_cst, gp_rst, gp_i1, gp_i2, gp_i3, gp_d1, g_out, g_out2
 #define W(a) __CPROVER_object_whole(a)
 
 /* first-match lookup / membership in a stored sparse vector of at most 8 entries, written out
@@ -65,4 +68,18 @@ static void havoc_ghosts(void)
    : (2 < (n) && (idx)[2] == (i)) ? (val)[2] : (3 < (n) && (idx)[3] == (i)) ? (val)[3] \
    : (4 < (n) && (idx)[4] == (i)) ? (val)[4] : (5 < (n) && (idx)[5] == (i)) ? (val)[5] \
    : (6 < (n) && (idx)[6] == (i)) ? (val)[6] : (7 < (n) && (idx)[7] == (i)) ? (val)[7] : 0.0)
+/* type invariant of a stored sparse vector: pairwise distinct indices (written out for <= 8 entries) */
+#define SV_D1(idx, n, a, b) ((b) >= (n) || (idx)[a] != (idx)[b])
+#define SV_DISTINCT(idx, n) (SV_D1(idx,n,0,1) && SV_D1(idx,n,0,2) && SV_D1(idx,n,0,3) && SV_D1(idx,n,0,4) && SV_D1(idx,n,0,5) && SV_D1(idx,n,0,6) && SV_D1(idx,n,0,7) \
+   && SV_D1(idx,n,1,2) && SV_D1(idx,n,1,3) && SV_D1(idx,n,1,4) && SV_D1(idx,n,1,5) && SV_D1(idx,n,1,6) && SV_D1(idx,n,1,7) \
+   && SV_D1(idx,n,2,3) && SV_D1(idx,n,2,4) && SV_D1(idx,n,2,5) && SV_D1(idx,n,2,6) && SV_D1(idx,n,2,7) \
+   && SV_D1(idx,n,3,4) && SV_D1(idx,n,3,5) && SV_D1(idx,n,3,6) && SV_D1(idx,n,3,7) && SV_D1(idx,n,4,5) && SV_D1(idx,n,4,6) && SV_D1(idx,n,4,7) \
+   && SV_D1(idx,n,5,6) && SV_D1(idx,n,5,7) && SV_D1(idx,n,6,7))
+/* "for every k < CAP: P(k)" written out (CAP <= 8) */
+#define ALLK(P) ((0 >= CAP || P(0)) && (1 >= CAP || P(1)) && (2 >= CAP || P(2)) && (3 >= CAP || P(3)) \
+   && (4 >= CAP || P(4)) && (5 >= CAP || P(5)) && (6 >= CAP || P(6)) && (7 >= CAP || P(7)))
+#define GHOST_DIMS (g_cap == CAP && g_nC == nC && g_nR == nR)
+/* strictly ascending indices (sorted stored vector), written out for <= 8 entries; implies SV_DISTINCT */
+#define SV_S1(idx, n, a) ((a) + 1 >= (n) || (idx)[a] < (idx)[(a) + 1])
+#define SV_SORTED(idx, n) (SV_S1(idx,n,0) && SV_S1(idx,n,1) && SV_S1(idx,n,2) && SV_S1(idx,n,3) && SV_S1(idx,n,4) && SV_S1(idx,n,5) && SV_S1(idx,n,6))
 #endif
